@@ -171,9 +171,18 @@ func runCase(c tcase, prog func(k int, e string)) (res result) {
 			_ = tx.Close()
 		}
 	}()
+	// One Writer value serves every operation outside a transaction and one serves every
+	// operation of a transaction (as the API layer and the services do: a writer is opened
+	// once and used for a whole batch), so that any state a writer may keep between calls
+	// takes part in the history. The observation queries below use fresh writers.
+	wdb := otg.NewWriter(nil)
+	var wtx ontology.Writer
 	for k, o := range c.Ops {
 		var e error
-		w := otg.NewWriter(tx)
+		w := wdb
+		if tx != nil {
+			w = wtx
+		}
 		prog(k, "")
 		switch o.Op {
 		case "defres":
@@ -193,6 +202,7 @@ func runCase(c tcase, prog func(k int, e string)) (res result) {
 		case "begin":
 			if tx == nil {
 				tx = db.OpenTx()
+				wtx = otg.NewWriter(tx)
 			}
 		case "commit":
 			if tx != nil {
